@@ -215,6 +215,12 @@ def make_graph(rng, V, kind):
         cols = [b for a, b in e] + [a for a, b in e] + [b for a, b in ghosts] + [a for a, b in ghosts]
         data = [1] * (2 * len(e)) + [0] * (2 * len(ghosts))
         import scipy.sparse as sps
+        if rng.random() < 0.5:
+            # ... also in a directed graph / tree-free digraph that adopts the caller's matrix (copy=False)
+            de = [(a, b) if rng.random() < 0.5 else (b, a) for a, b in e]
+            dg = [(a, b) if rng.random() < 0.5 else (b, a) for a, b in ghosts]
+            A_ = sps.csr_matrix((np.array([1] * len(de) + [0] * len(dg)), (np.array([a for a, b in de + dg]), np.array([b for a, b in de + dg]))), shape=(V, V))
+            return ms.DirectedGraph(A_, copy=bool(rng.random() < 0.4))
         return ms.UndirectedGraph(sps.csr_matrix((np.array(data), (np.array(rows), np.array(cols))), shape=(V, V)))
     else:  # random undirected, possibly with isolated vertices, edges in arbitrary order
         e = gen.random_undirected_edges(rng, V, p=0.35) or [(0, V - 1)]
